@@ -287,7 +287,7 @@ func (c *Ctx) shadowUnit(info *types.Info, u shadowUnit) int {
 		if sc := inner.Parent().Parent(); sc != nil {
 			if _, o := sc.LookupParent(inner.Name(), id.Pos()); o != nil {
 				if ov, ok := o.(*types.Var); ok && !ov.IsField() && !pkgScope(ov) && ov != inner && !bare[ov] &&
-					u.body.Pos() <= ov.Pos() && ov.Pos() < u.body.End() && inLit(ov.Pos()) == nil && computedFrom(inner, ov) {
+					u.typ.Pos() <= ov.Pos() && ov.Pos() < u.body.End() && (ov.Pos() < u.body.Pos() || inLit(ov.Pos()) == nil) && computedFrom(inner, ov) { // parameters included
 					cands[ov] = true
 				}
 			}
@@ -337,6 +337,23 @@ func (c *Ctx) shadowUnit(info *types.Info, u shadowUnit) int {
 			}
 			return true
 		})
+		// `return &v, nil` hands out the variable as it is at that point: a read, not an alias that is written through later
+		addrReturned := map[*ast.Ident]bool{}
+		ast.Inspect(u.body, func(x ast.Node) bool {
+			if _, ok := x.(*ast.FuncLit); ok {
+				return false
+			}
+			if rs, ok := x.(*ast.ReturnStmt); ok {
+				for _, e := range rs.Results {
+					if ue, ok := e.(*ast.UnaryExpr); ok && ue.Op == token.AND {
+						if id, ok := ue.X.(*ast.Ident); ok {
+							addrReturned[id] = true
+						}
+					}
+				}
+			}
+			return true
+		})
 		inOpaqueLit := func(pos token.Pos) bool {
 			fl := inLit(pos)
 			return fl != nil && !deferred[fl]
@@ -367,7 +384,7 @@ func (c *Ctx) shadowUnit(info *types.Info, u shadowUnit) int {
 				}
 			case *ast.UnaryExpr:
 				if s.Op == token.AND {
-					if id, ok := s.X.(*ast.Ident); ok && info.Uses[id] == v {
+					if id, ok := s.X.(*ast.Ident); ok && info.Uses[id] == v && !addrReturned[id] {
 						opaque = "its address is taken"
 					}
 				}
